@@ -1,5 +1,6 @@
 //! E4: network adversaries over scripted transports, through the `verif` facade of the network crate.
 mod c13;
+mod c14;
 mod transport;
 
 use vcommon::{Args, Report};
@@ -11,6 +12,7 @@ fn main() {
     let mode = args.extra.get("mode").cloned().unwrap_or_default();
     match (args.prop.as_str(), mode.as_str()) {
         ("C13", _) => c13::run(&args, &mut rep),
+        ("C14", _) => c14::run(&args, &mut rep),
         (p, m) => panic!("unknown property/mode {p}/{m}"),
     }
     std::process::exit(rep.finish());
